@@ -157,9 +157,12 @@ def graph4():
         method('Wipe', Q('WipeRequest'), OPERATION, http=('post', '/v1/{name=jobs/*}:wipe', '*'),
                lro=(f'{P}.WipeResult', 'google.protobuf.Empty')),
         method('Plain', Q('PlainRequest'), Q('PlainResponse'), http=('get', '/v1/{name=plains/*}'))])
-    f = file('acme/sel/v1/jobs.proto', P, messages=msgs, enums=enums, services=[jobs])
+    # the service sits in a file of its own that declares no message or enum (service.proto importing messages.proto)
+    f = file('acme/sel/v1/jobs.proto', P, messages=msgs, enums=enums)
     f.dependency.extend(desc.std_dep_names())
-    return [f, later]
+    fs = file('acme/sel/v1/jobs_service.proto', P, services=[jobs])
+    fs.dependency.extend(desc.std_dep_names() + [f.name])
+    return [f, fs, later]
 
 
 # ---------------------------------------------------------------- reference closure
